@@ -355,6 +355,26 @@ def _run_job(job, use_cache=True):
             res["backend"] = "cadical (after minisat2 exceeded %ds)" % first_box
             rc, out, err, secs2, to = run_cmd(cb2, job.timeout, job.mem_gb, stdout_path=outp)
             secs += secs2
+        if (not to) and rc not in (0, 10) and getattr(job, "witness_defs", None):
+            # the full-size run died (typically: out of memory while CBMC builds the counterexample of a failed obligation
+            # over 2^32-byte buffers). Same harness again with the size restriction of the witness pass: a FAILURE there is
+            # a genuine counterexample (the restriction only shrinks the input space); a pass there decides nothing.
+            try:
+                import copy
+                wj = copy.copy(job)
+                wj.name = job.name + "/small-sizes"
+                wj.defs = list(job.defs) + list(job.witness_defs)
+                wbin = build_job(wj, [])
+                cbw = [wbin if c == binary else c for c in cb]
+                rc2, out2, err2, secs2, to2 = run_cmd(cbw, job.timeout, job.mem_gb, stdout_path=outp)
+                secs += secs2
+                if (not to2) and rc2 == 10:
+                    rc, to = rc2, to2
+                    res["restricted_to_small_sizes"] = True
+                    res["cbmc_cmd"] = " ".join(cbw) + "   # after the full-size run ended with rc=6"
+                    binary = wbin
+            except RuntimeError:
+                pass
         res["solver_s"] = round(secs, 2)
         res["cbmc_rc"] = rc
         results, verdict, msgs = (None, None, "")
